@@ -1,15 +1,11 @@
-import sys; sys.path.insert(0,'/verif/tools')
+import sys, os, time
+sys.path.insert(0, "/verif/tools")
 from vlib import *
-run = Run("C03","quick",0)
-lib = build_lib(run,"dbg")
-exe = build_harness(run, lib, "h_ser", ["vh.c","h_tree.c","h_gen.c","h_ser.c"])
-out = run.path("ser.ndjson")
-judge=sys.argv[1]
-rc, err = run_harness(run, exe, sys.argv[2:], out)
-print(rc, err[-800:])
-run.log("recorded %d lines" % count_lines(out))
-res = tracecheck(run, "Trace_Serialize", out, boundary=b'{"e":"ser"', env={"VERIF_JUDGE":judge})
-run.log("validated")
-print({k:v for k,v in res.items() if k!='rejects'}, len(res['rejects']))
-for r in res['rejects'][:3]:
-    print("\n".join(r['exec'][:r['at']+1])[:3000]); print('---')
+import props
+judge = sys.argv[1]; flags = sys.argv[2].split(",") if sys.argv[2] else []; mode = sys.argv[3]; n = sys.argv[4]
+run = Run(judge, "quick", 1)
+t0=time.time()
+mc, res, out, n, cases, shapes, nontriv = props._ser_check(run, judge, flags, [(mode, n)], "dev", None)
+print("lines", n, "cases", cases, "rejects", len(res["rejects"]), "wall", round(time.time()-t0,1))
+for r in res["rejects"][:3]: print(r["at"], r["line"][:300])
+print(os.path.getsize(out))
